@@ -77,6 +77,26 @@ func (c ColNullable[T]) EncodeState(b *Buffer) {
 	}
 }
 
+// Prepare implements Preparable, preparing nested column if needed.
+func (c *ColNullable[T]) Prepare() error {
+	if v, ok := c.Values.(Preparable); ok {
+		if err := v.Prepare(); err != nil {
+			return errors.Wrap(err, "prepare values")
+		}
+	}
+	return nil
+}
+
+// Infer implements Inferable, inferring nested column if needed.
+func (c *ColNullable[T]) Infer(t ColumnType) error {
+	if v, ok := c.Values.(Inferable); ok {
+		if err := v.Infer(t.Elem()); err != nil {
+			return errors.Wrap(err, "infer values")
+		}
+	}
+	return nil
+}
+
 func (c ColNullable[T]) Type() ColumnType {
 	return ColumnTypeNullable.Sub(c.Values.Type())
 }
